@@ -48,8 +48,8 @@ pub fn init() {
     Executor::init_local_custom_executor(Det).expect("executor already set");
 }
 
-/// run every runnable task until nothing is ready any more
-pub fn drain() {
+/// run every runnable task until nothing is ready any more (one "tick" of the harness); returns how many polls it took
+pub fn drain() -> usize {
     let mut guard = 0usize;
     loop {
         let next = READY.lock().unwrap_or_else(|e| e.into_inner()).pop_front();
@@ -66,6 +66,7 @@ pub fn drain() {
         guard += 1;
         assert!(guard < 1_000_000, "executor does not quiesce");
     }
+    guard
 }
 
 /// after a panic: forget everything that was queued
